@@ -113,7 +113,7 @@ class EventDataframeDataReader(AbstractDataframeDataReader):
             raise LeaspyDataInputError("Events must be above 0")
 
         # Check event bool good format
-        if not np.array_equal(
+        if df_event[self.event_bool_name].isna().any() or not np.array_equal(
             df_event[self.event_bool_name], df_event[self.event_bool_name].astype(int)
         ):
             raise LeaspyDataInputError(
